@@ -183,6 +183,18 @@ func runC12(run *Run, seed int64, cfg c12Cfg, sizes []int, rng *rand.Rand) (out 
 		}
 	}
 	run.Cell("path", "ack-payload")
+	// a ping that travels on its own: once the sender's broadcast queue has drained nothing is piggybacked, the
+	// datagram is the bare message (to a peer that speaks protocol < 5 also without the checksum header), whose
+	// first byte is the message type
+	for k := 0; k < 100 && A.ML().VerifNumQueued() > 0; k++ {
+		Settle(200 * time.Millisecond)
+	}
+	if A.ML().VerifNumQueued() == 0 {
+		if _, err := A.ML().Ping(nameB, simAddr{B.EP.Addr}); err != nil {
+			fail("ping/bare", "Ping() of a healthy compatible peer, sent with nothing piggybacked, failed: %v cfg %+v", err, cfg)
+		}
+		run.Cell("path", "ping-bare")
+	}
 	// user payloads
 	type sent struct {
 		path string
@@ -366,10 +378,10 @@ func TestC12(t *testing.T) {
 		for k := 0; k < len(cfgs); k++ {
 			// (the stride is skewed so that one residue still meets every value of every dimension: labels
 			// cycle with period 3 in the list)
-			if (k+k/3+k/9+k/27)%step != run.Pick(int(run.Seed())%3, 0) {
+			cfg := cfgs[k]
+			if (k+k/3+k/9+k/27)%step != run.Pick(int(run.Seed())%3, 0) && !cfg.Rollout { // (the roll-out pairs are few: all of them, always)
 				continue
 			}
-			cfg := cfgs[k]
 			id := fmt.Sprintf("cfg/%d/rep%d", k, rep)
 			if !run.Mine(k/step+rep) || !run.Want(id) {
 				continue
